@@ -18,9 +18,9 @@ theorem id_finish {Wit : Nat → K → Prop} {H : List Lk} {t t' : Tree K V}
 
 /-- **Delete's continuations, separator level.** -/
 theorem resume_isep_D : ResumeID K V := by
-  intro lt P t s k H Wit hd hkp hpre hk hkpre hcov hO hpos hWit hisep
-  have hkd := resume_kpost_D lt P t s k H hd hkp hpre hk hkpre hcov hO hpos
-  have hpost := resume_post_D P t s k H hd hpre hk hkpre hcov
+  intro lt P t s k H Wit hd h4 hkp hpre hk hkpre hcov hO hpos hWit hisep
+  have hkd := resume_kpost_D lt P t s k H hd h4 hkp hpre hk hkpre hcov hO hpos
+  have hpost := resume_post_D P t s k H hd h4 hpre hk hkpre hcov
   have h := hkp.swo
   have hidsF := hpost.tree.ids.1
   have hids : s.tree.ids.Nodup := hpre.tree.ids.1
@@ -45,7 +45,7 @@ theorem resume_isep_D : ResumeID K V := by
     have hr : Lk.node r ∈ H := hlock _ rfl
     have hk' : r = s.tree.rootId := hk
     have hon : OnRoute lt s.tree key r := by rw [hk']; exact onRoute_root hids hpar key
-    have go := delGo_i h P hkp.lt hpre.pad t key r H hr Wit hWit (s.acq t (.node r)) [] r hpre.tree hpre.order hk' rfl
+    have go := delGo_i h P hkp.lt hpre.pad t key r H hr Wit hWit (s.acq t (.node r)) [] r hpre.tree h4 hpre.order hk' rfl
       (by intro l hl; cases hl) hO hon hsep
     exact id_finish hidsF go.sep go.routes hb
   | delLeft key frames node index left root =>
@@ -62,7 +62,7 @@ theorem resume_isep_D : ResumeID K V := by
     obtain ⟨hroot, hfr, hfrm⟩ := hk
     have hon : OnRoute lt s.tree key child := onRoute_kid hids hpar key hpos.1 hpos.2 hfrm.1
     have go := delGo_i h P hkp.lt hpre.pad t key root H hrootH Wit hWit (s.acq t (.node child))
-      (⟨node, index, left, child⟩ :: frames) child hpre.tree hpre.order hroot ⟨rfl, hfrm, hfr⟩ (by
+      (⟨node, index, left, child⟩ :: frames) child hpre.tree h4 hpre.order hroot ⟨rfl, hfrm, hfr⟩ (by
         intro l hl
         simp only [framesHeld, List.mem_append, List.mem_singleton] at hl
         rcases hl with hl | hl | hl
@@ -75,7 +75,7 @@ theorem resume_isep_D : ResumeID K V := by
     obtain ⟨hroot, hfr, hr, hsm⟩ := hk
     have hok : TreeOk (some fr.child) s.tree := hpre.tree
     have out := delRightArrive_i h P hpre.pad t key root H hrootH Wit hWit (s.acq t (.node right)) rest fr right
-      ⟨by simpa using hok.prime, hpre.order, hroot, hfr, fun _ => hsm⟩ (by
+      ⟨by simpa using hok.prime h4, hpre.order, hroot, hfr, fun _ => hsm⟩ (by
         intro l hl
         exact hheld _ (by simp only [kontHeld, List.mem_cons]; right; right; exact hl)) hr (hlock _ rfl) hO hsep
     exact id_finish hidsF out.sep out.routes hb
